@@ -32,4 +32,4 @@ PY
 done
 git -C /repo worktree remove --force $WT
 T=$(python3 -c "import hashlib;print(hashlib.sha256('$WT'.encode()).hexdigest()[:8])")
-rm -rf /verif/.cache/target-$T /verif/.cache/harness-$T /verif/.cache/coq-$T
+rm -rf /verif/.cache/target-$T /verif/.cache/harness-$T /verif/.cache/coq-$T /verif/.cache/evidence-$T
